@@ -91,8 +91,11 @@ CLAIMS.update({
          "evaluation on every valid context value; the set of reachable contexts is closed; the permissions of you / try-body / handler / "
          "?? operand / defeat / ordinary / global contexts and the loop flag equal the documented table (kernel-evaluated over all "
          "reachable contexts); the context tests of the grammar are pinned. The Lean parser model uses exactly these definitions and is "
-         "tied to hidc.parser by the parse suite (trees, error class, error position). Soundness and completeness of whole parses are "
-         "validated by exhaustive placement enumeration against an independent permission table, not yet proved by induction.",
+         "tied to hidc.parser by the parse suite (trees, error class, error position). SOUNDNESS of whole parses is proved for every source "
+         "text (accepted_programs_respect_the_rules: by induction on the fuel of all 20 parser functions every returned tree satisfies the "
+         "context discipline, and by induction on that derivation the documented rules - stated position by position in the words of the "
+         "documentation, no context numbers - hold in every function body and global initialiser). Completeness (every rule-abiding "
+         "program is accepted) is validated by exhaustive placement enumeration against an independent permission table, not proved.",
          "machine-checked proof (Lean 4) over regenerated context algebra + exhaustive placement enumeration", "6 C06"),
  'C07': ("proof", "Proof, partial. Proved about the typechecker model (tied by the tc suite: identical typed trees / error class on generated "
          "programs, type mutations and ~300 repository test snippets): coercion lattice and explicit-cast table equal the documented ones on "
